@@ -110,11 +110,25 @@ where
 /// interrupt only on a redirection error during the execution of a special
 /// built-in. The caller is responsible for checking the condition and
 /// interrupting accordingly.
+///
+/// An exception is an [expansion error](crate::redir::ErrorCause::Expansion)
+/// that occurred while expanding the operand of the redirection. It is handled
+/// in the same way as any other [expansion error](crate::expansion::Error), so
+/// it interrupts the shell regardless of the command the redirection belongs
+/// to.
 impl<S> Handle<S> for crate::redir::Error
 where
     S: Isatty + WriteAll,
 {
     async fn handle(&self, env: &mut Env<S>) -> super::Result {
+        if let crate::redir::ErrorCause::Expansion(cause) = &self.cause {
+            let error = crate::expansion::Error {
+                cause: cause.clone(),
+                location: self.location.clone(),
+            };
+            return error.handle(env).await;
+        }
+
         print_report(env, &self.to_report()).await;
         env.exit_status = ExitStatus::ERROR;
         Continue(())
